@@ -1,7 +1,9 @@
-CONSTANTS Ws = {2}  Hs = {2}  SBs = {1}  TABs = {2}  MaxOps = 6
+CONSTANTS Ws = {2}  Hs = {2}  SBs = {1}  TABs = {2}  MaxOps = 5
   Kind = "rec"  Bug = ""  Props = {"C17"}  EmitMode = "sample"  EmitMod = 4
 CONSTANT Bytes <- MCBytes
 CONSTANT CurVals <- MCCurVals
+CONSTANT Chunks <- MCChunks
+CONSTANT Cols <- MCCols2
 INIT Init
 NEXT Next
 INVARIANT NoMismatch
